@@ -340,7 +340,7 @@ def standard_check_after_real(ctx, cases, prop, kinds, component, monitor, extra
             extra(ctx, c)
 
 
-def run_in_process(ctx, runs, tag="ip", timeout=180):
+def run_in_process(ctx, runs, tag="ip", timeout=180, same_dir=False):
     """runs = [(world, opts), ...]: all of them one after another in ONE fresh process (an embedding program, the
     runner's own tests), each under contextlib.redirect_stdout(io.StringIO()) - twice_worker.py.  Returns one Obs per
     run (stdout, exit 0/1 from the returned verdict, trace events), or None when the worker itself failed."""
@@ -351,6 +351,12 @@ def run_in_process(ctx, runs, tag="ip", timeout=180):
     dirs = []
     specs = []
     for k, (w, o) in enumerate(runs):
+        if same_dir and k > 0:
+            # the same world once more, in the same process, nothing re-imported: the very same test and layer objects
+            d = dirs[0]
+            specs[-1]["keep"] = True
+            specs.append({"dir": d, "args": worlds.cli_args(d, o)[2:], "trace": os.path.join(d, "trace%d.jsonl" % k)})
+            continue
         d = os.path.join(ctx.tmp, "%s%05d_%d" % (tag, ctx._ip_counter, k))
         worlds.materialize(w, d)
         dirs.append(d)
